@@ -124,10 +124,11 @@ Section Calls.
   Lemma chown_gen_ok slm name uid gid : step_ok s (fst (chown_gen slm s v name uid gid)).
   Proof.
     unfold chown_gen.
-    destruct ((v_idm v && negb (us_admin (v_user v))) || win v); [stay|].
+    destruct (win v); [stay|].
     destruct (sr_child (search_node s v name slm)) as [c|]; [|stay].
     destruct (negb (is_file_exists (sr_err (search_node s v name slm)))); [stay|].
     destruct (get (f_heap s) c) as [n|] eqn:Eg; [|stay].
+    destruct (v_idm v && negb (chown_ok (node_meta n) (v_user v) uid gid)); [stay|].
     cbn [fst]. apply step_ok_with_heap. now apply Inv_heap_set_meta.
   Qed.
 
